@@ -38,6 +38,7 @@ type state struct {
 	hist     map[string]int
 	fails    map[string]*failure
 	nontriv  map[string]bool
+	normdiff map[string]int // what the equivalence had to identify, counted
 	samples  []string
 	accepted int
 	texts    int
@@ -102,6 +103,7 @@ func (st *state) checkDoc(doc *dbc.File, hex bool, emit bool) []byte {
 			st.fail(&failure{Sig: "c08-write-parse-differs-" + strings.Join(d, "+"), Detail: "parse(write(doc)) is not equivalent to doc in section(s) " + strings.Join(d, ","),
 				Stream: "doc", Hex: hex, Doc: doc, Text: string(text), size: len(text)})
 		}
+		st.exactDiff(doc, o.File, "doc", hex, string(text), doc)
 		if nonEmptySections(doc) >= 5 {
 			st.nontriv[string(text)] = true
 		}
@@ -150,9 +152,28 @@ func (st *state) checkText(stream string, text []byte, hex bool, emit bool) {
 			st.fail(&failure{Sig: "c08-pwp-differs-" + strings.Join(d, "+"), Detail: "parse(write(parse(text))) differs from parse(text) in section(s) " + strings.Join(d, ","),
 				Stream: stream, Hex: hex, Text: string(text), size: len(text)})
 		}
+		st.exactDiff(o.File, o2.File, stream, hex, string(text), nil)
 		if len(dbc.VerifScanAll(text)) >= 20 {
 			st.nontriv[string(text)] = true
 		}
+	}
+}
+
+// exactDiff looks at what the equivalence identified: header defaults for absent sections and the
+// literal form of numeric attribute values are counted (property: "compared by value"; the writer
+// completes the mandatory header); an EMPTY VERSION that comes back as "_" is a value the parser
+// understood and the writer altered: reported.
+func (st *state) exactDiff(a, b *dbc.File, stream string, hex bool, text string, doc *dbc.File) {
+	pa, pb := dbccase.Project(a), dbccase.Project(b)
+	for _, s := range dbccase.Sections {
+		if pa[s] != pb[s] {
+			st.normdiff[s]++
+		}
+	}
+	if a.Version == "" && b.Version == "_" {
+		st.fail(&failure{Sig: "c08-exact-version-empty-becomes-underscore",
+			Detail: "the empty version string comes back as \"_\" after write and parse (writer.go:82-85 replaces it)",
+			Stream: stream, Hex: hex, Text: text, Doc: doc, size: len(text)})
 	}
 }
 
@@ -220,7 +241,7 @@ func run(seed uint64, tier, outDir string) error {
 		return err
 	}
 	defer cf.Close()
-	st := &state{w: bufio.NewWriterSize(cf, 1<<20), hist: map[string]int{}, fails: map[string]*failure{}, nontriv: map[string]bool{}}
+	st := &state{w: bufio.NewWriterSize(cf, 1<<20), hist: map[string]int{}, fails: map[string]*failure{}, nontriv: map[string]bool{}, normdiff: map[string]int{}}
 	dbccase.Tables(st.w)
 	r := &rng{s: seed}
 
@@ -323,6 +344,14 @@ func run(seed uint64, tier, outDir string) error {
 	for _, k := range hk {
 		fmt.Fprintf(sf, "hist %s %d\n", k, st.hist[k])
 	}
+	var nk []string
+	for k := range st.normdiff {
+		nk = append(nk, k)
+	}
+	sort.Strings(nk)
+	for _, k := range nk {
+		fmt.Fprintf(sf, "normdiff %s %d\n", k, st.normdiff[k])
+	}
 	for _, s := range st.samples {
 		fmt.Fprintf(sf, "SAMPLE %s\n", s)
 	}
@@ -380,7 +409,7 @@ func replay(file, outDir string) error {
 		return err
 	}
 	defer cf.Close()
-	st := &state{w: bufio.NewWriter(cf), hist: map[string]int{}, fails: map[string]*failure{}, nontriv: map[string]bool{}}
+	st := &state{w: bufio.NewWriter(cf), hist: map[string]int{}, fails: map[string]*failure{}, nontriv: map[string]bool{}, normdiff: map[string]int{}}
 	dbccase.Tables(st.w)
 	if f.Doc != nil {
 		t := st.checkDoc(f.Doc, f.Hex, true)
